@@ -415,6 +415,44 @@ pub fn normalise_panic(msg: &str, loc: &str) -> String {
     format!("{} @{}", s.trim(), file)
 }
 
+// Crash phase tags: a check announces what it is about to call (`phase("Schema::validate")`) so that
+// a worker killed by a signal (stack overflow, abort) is attributed to that call and not merely to
+// the case: the signature becomes `<ID>|crash|<phase>|<status>`. The tag goes to a side file of the
+// worker's trace file (`VERIF_PHASE_FILE`), which the parent reads after the child died.
+static PHASE_FILE: std::sync::OnceLock<Mutex<Option<std::fs::File>>> = std::sync::OnceLock::new();
+
+pub fn set_phase_file(path: &str) {
+    let f = std::fs::OpenOptions::new().create(true).write(true).truncate(true).open(path).ok();
+    let _ = PHASE_FILE.set(Mutex::new(f));
+}
+
+/// Announce the call that is about to run ("" clears it). Cheap: one positioned write.
+pub fn phase(tag: &str) {
+    if let Some(m) = PHASE_FILE.get() {
+        if let Ok(mut g) = m.lock() {
+            if let Some(f) = g.as_mut() {
+                use std::io::{Seek, SeekFrom};
+                let _ = f.seek(SeekFrom::Start(0));
+                let _ = f.write_all(format!("{:<64}", truncate(tag, 60)).as_bytes());
+            }
+        }
+    }
+}
+
+fn read_phase(path: &str) -> String {
+    let t = std::fs::read_to_string(path).unwrap_or_default();
+    let _ = std::fs::remove_file(path);
+    t.trim().to_string()
+}
+
+fn crash_sig(prop: &str, phase: &str, status: &str) -> String {
+    if phase.is_empty() {
+        format!("{}|crash|{}", prop, status)
+    } else {
+        format!("{}|crash|{}|{}", prop, phase, status)
+    }
+}
+
 /// Run `f`, converting a panic into `Outcome::Fail` with a `panic|...` signature.
 pub fn guarded<F: FnOnce() -> Outcome>(prop: &str, f: F) -> Outcome {
     LAST_PANIC.with(|p| *p.borrow_mut() = None);
@@ -648,7 +686,11 @@ pub fn worker_main(a: WorkerArgs) -> i32 {
                 .as_ref()
                 .and_then(|p| std::fs::OpenOptions::new().create(true).write(true).truncate(true).open(p).ok());
             let stage = &prop.stages[stage_idx];
+            if let Some(t) = trace.as_ref() {
+                set_phase_file(&format!("{}.phase", t));
+            }
             for index in start..end {
+                phase("");
                 p2.store(index, Ordering::SeqCst);
                 *s2.lock().unwrap() = Instant::now();
                 if let Some(f) = trace_file.as_mut() {
@@ -882,7 +924,7 @@ fn work_dir() -> String {
 enum WorkerResult {
     Ok(Value),
     Hang(u64),
-    Crash { index: Option<u64>, status: String },
+    Crash { index: Option<u64>, status: String, phase: String },
 }
 
 fn run_worker(cfg: &RunCfg, stage: usize, start: u64, end: u64, no_shrink: bool) -> WorkerResult {
@@ -905,7 +947,7 @@ fn run_worker(cfg: &RunCfg, stage: usize, start: u64, end: u64, no_shrink: bool)
     let out = match cmd.output() {
         Ok(o) => o,
         Err(e) => {
-            return WorkerResult::Crash { index: None, status: format!("spawn failed: {}", e) }
+            return WorkerResult::Crash { index: None, status: format!("spawn failed: {}", e), phase: String::new() }
         }
     };
     let text = String::from_utf8_lossy(&out.stdout);
@@ -913,10 +955,11 @@ fn run_worker(cfg: &RunCfg, stage: usize, start: u64, end: u64, no_shrink: bool)
     let parsed: Option<Value> = serde_json::from_str(last).ok();
     let idx = std::fs::read_to_string(&trace).ok().and_then(|s| s.trim().parse::<u64>().ok());
     let _ = std::fs::remove_file(&trace);
+    let phase = read_phase(&format!("{}.phase", trace));
     match (out.status.code(), parsed) {
         (Some(0), Some(v)) => WorkerResult::Ok(v),
         (Some(3), Some(v)) if v.get("hang").is_some() => WorkerResult::Hang(v["hang"].as_u64().unwrap_or(0)),
-        _ => WorkerResult::Crash { index: idx, status: format!("{:?}", out.status) },
+        _ => WorkerResult::Crash { index: idx, status: format!("{:?}", out.status), phase },
     }
 }
 
@@ -1030,7 +1073,7 @@ pub fn run_property(prop: &'static Prop, tier: Tier, seed: u64, exe: &str) -> Ru
                         // the cases before idx are lost from the counts; continue after it
                         start = idx + 1;
                     }
-                    WorkerResult::Crash { index, status } => {
+                    WorkerResult::Crash { index, status, .. } => {
                         crashes += 1;
                         let Some(idx) = index else {
                             merged.lock().unwrap().inconclusive.push(format!("worker died without trace: {}", status));
@@ -1038,12 +1081,12 @@ pub fn run_property(prop: &'static Prop, tier: Tier, seed: u64, exe: &str) -> Ru
                         };
                         // confirm alone
                         match run_worker(&cfg, chunk.stage, idx, idx + 1, true) {
-                            WorkerResult::Crash { status: st2, .. } => {
+                            WorkerResult::Crash { status: st2, phase: ph2, .. } => {
                                 let bytes = match &prop.stages[chunk.stage].kind {
                                     StageKind::Random { max_len, .. } => Some(gen_case(cfg.seed, prop.id, chunk.stage, idx, max_len(cfg.tier))),
                                     _ => None,
                                 };
-                                let sig = format!("{}|crash|{}", prop.id, st2);
+                                let sig = crash_sig(prop.id, &ph2, &st2);
                                 let known_sigs: Vec<String> = load_known(prop.id).into_iter().map(|k| k.sig).collect();
                                 let mut m = merged.lock().unwrap();
                                 if known_sigs.contains(&sig) {
@@ -1185,13 +1228,16 @@ fn replay_in_child(cfg: &RunCfg, path: &str, expect: Option<&str>) -> ReplayResu
     } else {
         cmd.arg("replay-raw");
     }
+    let phase_path = format!("{}/phase-replay-{}-{:016x}", work_dir(), std::process::id(), fnv(path.as_bytes()));
     let out = cmd
         .arg("--prop").arg(cfg.prop)
         .arg("--tier").arg(cfg.tier.name())
         .arg("--file").arg(path)
+        .env("VERIF_PHASE_FILE", &phase_path)
         .stdin(Stdio::null())
         .stderr(Stdio::null())
         .output();
+    let phase = read_phase(&phase_path);
     let out = match out { Ok(o) => o, Err(e) => return ReplayResult::Error(e.to_string()) };
     let text = String::from_utf8_lossy(&out.stdout);
     let last = text.lines().last().unwrap_or("");
@@ -1204,7 +1250,7 @@ fn replay_in_child(cfg: &RunCfg, path: &str, expect: Option<&str>) -> ReplayResu
         }
         Err(_) => {
             if out.status.code().is_none() || out.status.code() == Some(134) || out.status.code() == Some(139) {
-                ReplayResult::Fail(format!("{}|crash|{:?}", cfg.prop, out.status), format!("process died: {:?}", out.status))
+                ReplayResult::Fail(crash_sig(cfg.prop, &phase, &format!("{:?}", out.status)), format!("process died: {:?} (phase {:?})", out.status, phase))
             } else {
                 ReplayResult::Error(format!("replay child exit {:?}: {}", out.status, truncate(&text, 200)))
             }
@@ -1216,6 +1262,9 @@ fn replay_in_child(cfg: &RunCfg, path: &str, expect: Option<&str>) -> ReplayResu
 /// a JSON verdict line. Used by the parent and by `check --replay`.
 pub fn replay_raw(prop: &'static Prop, tier: Tier, path: &str) -> (i32, Value) {
     install_panic_hook();
+    if let Ok(p) = std::env::var("VERIF_PHASE_FILE") {
+        set_phase_file(&p);
+    }
     set_known_for(prop.id);
     let Ok(text) = std::fs::read_to_string(path) else {
         return (4, json!({"outcome": "error", "detail": format!("cannot read {}", path)}));
